@@ -209,6 +209,7 @@ def _check_live(case, ctx):
                                           "TLS" if tls else "plaintext", form, n, len(data), len(pr.body),
                                           "" if pr.ok else " (not a success reply: %r)" % got[:60])))
         fails += _overlapping_downloads(srv, root, case, ctx)
+        fails += _late_headers(srv, root, case, ctx)
         ctx.label("live:" + case["servertype"])
         ctx.sample({"live": case["servertype"], "sizes": LIVE_SIZES, "forms": LIVE_FORMS}, cls="live")
         return _dedup(fails)
@@ -216,6 +217,57 @@ def _check_live(case, ctx):
         if srv is not None:
             srv.stop()
         world.rmtree(base)
+
+
+def _late_headers(srv, root, case, ctx):
+    """An HTTP client whose header block arrives in a later segment than its request line (0.3 s later) and that starts
+    reading only after a second: whatever the server does with the headers, every byte of a 16 MiB document arrives (bytes
+    of the request left unread when the server closes would turn the close into a reset that discards unsent data)."""
+    import os
+    import socket
+    import struct
+    import time
+    from pgv import live
+    data = b"".join(struct.pack("<I", i) for i in range(4 * 1024 * 1024))
+    with open(os.path.join(root, "late16.bin"), "wb") as f:
+        f.write(data)
+    fails = []
+    for form, path in (("http", b"/late16.bin"), ("http", b"/wap/late16.bin"), ("https", b"/late16.bin")):
+        tls = clients.FORMS[form][0]
+        got = None
+        try:
+            s = socket.socket()
+            s.settimeout(60)
+            s.connect(("127.0.0.1", srv.port))
+            if tls:
+                s = live.client_ctx().wrap_socket(s, server_hostname="gopher.example")
+            s.sendall(b"GET " + path + b" HTTP/1.0\r\n")
+            time.sleep(0.3)
+            s.sendall(b"Host: gopher.example\r\nUser-Agent: late\r\nAccept: */*\r\nX-Padding: " + b"x" * 600 + b"\r\n\r\n")
+            time.sleep(1.0)
+            chunks = []
+            while True:
+                b = s.recv(65536)
+                if not b:
+                    break
+                chunks.append(b)
+            got = b"".join(chunks)
+        except Exception as e:  # noqa
+            got = (b"".join(chunks) if "chunks" in dir() else b"", e)
+        ctx.evaluations += 1
+        ctx.count("late_header_requests")
+        ctx.nontriv(("late-headers", case["servertype"], form, path))
+        if isinstance(got, tuple):
+            fails.append(Fail("late-headers:failed:%s" % ("tls" if tls else "plain"),
+                              "the header block arrives 0.3 s after the request line, the client reads after 1 s: the %s download of %s (16 MiB) "
+                              "breaks off after %d bytes with %r" % (form, path.decode(), len(got[0]), got[1])))
+            continue
+        body = got.split(b"\r\n\r\n", 1)[1] if b"\r\n\r\n" in got else b""
+        if body != data:
+            fails.append(Fail("late-headers:body:%s" % ("tls" if tls else "plain"),
+                              "the header block arrives 0.3 s after the request line, the client reads after 1 s: the %s download of %s delivers "
+                              "%d of %d bytes" % (form, path.decode(), len(body), len(data))))
+    return fails
 
 
 def _overlapping_downloads(srv, root, case, ctx):
